@@ -27,6 +27,10 @@ func (pat Pattern) Matches(s string) bool {
 // LastMatch finds the last match in s.
 // It is less efficient, but rarely used.
 func (pat Pattern) LastMatch(s string, i int, cap *Captures) bool {
+	i = min(i, len(s)) // a position past the end is the end
+	if i < 0 {
+		return false
+	}
 	if pat.leftAnchored() {
 		// if left anchored, only need to try at the start
 		return pat.match(s, 0, cap, true)
@@ -69,6 +73,9 @@ type state struct {
 
 // FirstMatch finds the first match at or after position i
 func (pat Pattern) FirstMatch(s string, i int, cap *Captures) bool {
+	if i < 0 || i > len(s) {
+		return false // no position to match at (instead of a slice/index panic)
+	}
 	return pat.match(s, i, cap, false)
 }
 
